@@ -210,62 +210,59 @@ def _kind(e, n):
 
 
 def r5_missing_transitions(ctx, chk, rule="C09.1"):
-    """init_states: one node per state whose transition list is truthy; raise if the count differs from n."""
-    f = ctx.func("tad.py::StochasticGame.init_states")
-    sx = SymX(ctx, f, "StochasticGame", inline_depth=0).run()
-    loops = [l for l in sx.loops.values() if l.kind == "for"]
-    raises = [e for e in sx.final.effects if e[1] == "raise"]
-    if len(loops) != 1 or len(raises) != 1:
-        chk.undecided(rule, f.where(), "init_states: %d loops, %d raises" % (len(loops), len(raises)))
+    """init_states: one node per state whose transition list is non-empty; raise if the count differs from n."""
+    try:
+        T = shared.init_states_table(ctx)
+    except AnalysisError as e:
+        chk.undecided(rule, "tad.py StochasticGame.init_states", str(e))
         return
-    L = loops[0]
+    f, sx, L, v = T["f"], T["sx"], T["loop"], T["var"]
     want_src = ("call", "zip", (A("players"), A("transition_list"), A("rewards")), ())
-    if L.source != want_src or not L.enumerated or not L.whole or L.has_break or L.has_return or L.cont != FALSE:
-        chk.violation(rule, f.where(L.node), "init_states does not walk the whole (players, transition_list, rewards) table: `%s`" % show(L.source),
-                      expected="enumerate(zip(self.players, self.transition_list, self.rewards))", found=show(L.source), construct="init_states coverage")
+    if L.source != want_src or not L.enumerated or not L.whole or L.has_break or L.has_return:
+        chk.violation(rule, f.where(L.node), "init_states does not walk the whole (players, transition_list, rewards) table: `%s`%s" % (
+            show(L.source), " with early exit" if (L.has_break or L.has_return) else ""),
+            expected="enumerate(zip(self.players, self.transition_list, self.rewards))", found=show(L.source), construct="init_states coverage")
         return
-    sv = [v for v, fo in classify(L).items() if fo is not None and fo.kind in ("COLLECT", "OTHER") and L.init.get(v) == ("list", ())]
-    if len(sv) != 1:
-        chk.undecided(rule, f.where(L.node), "node list variable not identified")
-        return
-    v = sv[0]
-    u = L.update[v]
     acc = ("acc", L.id, v)
-    trans = simp(("idx", simp(("idx", ("elem", L.id), C(1))), C(1))) if False else None
-    # u = ite(truthy(transitions), <dispatch>, acc)
-    tr = simp(("idx", ("elem", L.id), C(1)))
-    if not (u[0] == "ite" and u[1] == ("truthy", tr) and u[3] == acc):
-        chk.violation(rule, f.where(L.node), "a node is built under `%s`; specification: for every state whose transition list is non-empty" % show(u[1] if u[0] == "ite" else TRUE),
-                      expected="if transitions: build node", found=show(u[1] if u[0] == "ite" else u), construct="init_states build condition")
+    tr = simp(("idx", T["elem"], C(1)))
+    bad = False
+    for (P, nonempty), t in T["rows"].items():
+        if not nonempty or P == "<unknown player>":
+            if t != acc:
+                bad = True
+                chk.violation(rule, f.where(L.node), "a node is built for a state %s: `%s`; then the 'Missing transitions' count cannot detect it" % (
+                    "with an empty transition list" if not nonempty else "of an unknown player kind", show(t)[:120]), expected="nothing appended", found=show(t)[:140],
+                    construct="init_states builds node %s" % ("for empty transitions" if not nonempty else "for unknown player"))
+            continue
+        okn = t[0] == "cat" and t[1] == acc and t[2][0] == "list" and len(t[2][1]) == 1 and t[2][1][0][0] == "call" and t[2][1][0][1] == ctx.cg.player_class[P]
+        if not okn:
+            bad = True
+            if t == acc:
+                chk.violation(rule, f.where(L.node), "no node is built for a %s state with transitions" % P, expected="one %s per such state" % ctx.cg.player_class[P], found="nothing appended",
+                              construct="init_states skips %s" % P)
+            else:
+                chk.undecided(rule, f.where(L.node), "construction for a %s state not recognised: %s" % (P, show(t)[:140]))
+            continue
+        kws = dict(t[2][1][0][3])
+        if kws.get("next_states") != tr:
+            bad = True
+            chk.violation(rule, f.where(L.node), "the %s node of a state receives `%s` as its transitions, not the state's own list" % (P, show(kws.get("next_states")) if kws.get("next_states") else None),
+                          expected="next_states=<this state's transitions>", found=show(kws.get("next_states"))[:80] if kws.get("next_states") else "missing", construct="init_states transitions of %s" % P)
+    raises = [e for e in sx.final.effects if e[1] == "raise"]
+    if len(raises) != 1:
+        chk.undecided(rule, f.where(), "init_states: %d raises" % len(raises))
         return
-    disp = u[2]
-    built = 0
-    d = disp
-    ok_dispatch = True
-    while d != acc:
-        if d[0] == "ite" and d[2][0] == "cat" and d[2][1] == acc and d[2][2][0] == "list" and len(d[2][2][1]) == 1:
-            built += 1
-            node = d[2][2][1][0]
-            kws = dict(node[3]) if node[0] == "call" else {}
-            if kws.get("next_states") != tr:
-                ok_dispatch = False
-            d = d[3]
-        else:
-            ok_dispatch = False
-            break
     cond, _, exc = raises[0]
     want_c = simp(("cmp", "!=", ("call", "len", (("res", L.id, v),), ()), A("num_states")))
     name = exc[1] if exc[0] == "call" else "?"
-    if not ok_dispatch or built != 3:
-        chk.undecided(rule, f.where(L.node), "dispatch in init_states not recognised (%d node constructions)" % built)
-    elif cond != want_c:
+    if cond != want_c:
         chk.violation(rule, f.where(), "'Missing transitions' is raised iff `%s`; specification: number of nodes built != number of states" % show(cond),
                       expected=show(want_c), found=show(cond), construct="init_states count guard")
     elif name != "ValueError":
         chk.violation("C09.3", f.where(), "'Missing transitions' raises %s" % name, expected="ValueError", found=name, construct="init_states raises %s" % name)
-    else:
-        chk.ok(rule, f.where(), "state without transitions: one node per state with a non-empty transition list (whole table), ValueError iff the count differs from num_states; "
-               "each node receives its own state's transitions")
+    elif not bad:
+        chk.ok(rule, f.where(), "state without transitions: exactly one node per state with a non-empty transition list and a known player kind (whole table), "
+               "ValueError iff the count differs from num_states; each node receives its own state's transitions")
 
 
 def r6_no_final(ctx, chk, rule="C09.1"):
